@@ -24,8 +24,12 @@ pub mod c18;
 pub mod c19;
 pub mod c20;
 pub mod fac;
+pub mod san;
 
 pub fn dispatch(args: &Args, rep: &mut Report) {
+    if args.engine == "san" {
+        return san::run(args, rep);
+    }
     match args.prop.as_str() {
         "C01" => c01::run(args, rep),
         "C02" => c02::run(args, rep),
